@@ -237,3 +237,412 @@ Qed.
 
 Lemma b_update_pending_nodes b conn inc : nodes (b_update_pending b conn inc) = nodes b.
 Proof. unfold b_update_pending. destruct (pend b); reflexivity. Qed.
+
+(* ------------------------------------------------------------------------------------------ *)
+(* C07, "a connected node is never evicted in favour of a pending one": no operation drops a
+   connected node from the nodes of its bucket unless the operation is addressed to that node
+   (remove, a status / record update refused by a limit).  The node stays the very same record
+   (key, value, status, direction, stamp). *)
+
+Theorem apply_pending_never_evicts_connected c b now n :
+  In n (nodes b) -> nconn n = true -> In n (nodes (fst (b_apply_pending c b now))).
+Proof.
+  intros Hn Hc. pose proof (apply_pending_spec c b now) as S. cbv zeta in S.
+  destruct (snd (b_apply_pending c b now)) as [[ins ev]|].
+  - destruct S as (p & _ & _ & _ & _ & _ & S). destruct ev as [e|].
+    + destruct S as (_ & h & rest & En & _ & Hh & HP).
+      apply (Permutation_in _ (Permutation_sym HP)). right.
+      rewrite En in Hn. destruct Hn as [<-|Hn]; [congruence|exact Hn].
+    + destruct S as (_ & HP). apply (Permutation_in _ (Permutation_sym HP)). right. exact Hn.
+  - destruct S as (S & _). rewrite S. exact Hn.
+Qed.
+
+(* what apply_pending can remove from the nodes: only the head of a full bucket, disconnected,
+   and only when there is a pending node whose timeout has elapsed *)
+Theorem apply_pending_departures c b now n :
+  In n (nodes b) -> ~ In n (nodes (fst (b_apply_pending c b now))) ->
+  nconn n = false /\ is_full b = true /\ (exists rest, nodes b = n :: rest) /\
+  exists p, pend b = Some p /\ (preplace p <= now)%N.
+Proof.
+  intros Hn Hout. pose proof (apply_pending_spec c b now) as S. cbv zeta in S.
+  destruct (snd (b_apply_pending c b now)) as [[ins ev]|].
+  - destruct S as (p & Ep & Hle & _ & _ & _ & S). destruct ev as [e|].
+    + destruct S as (Hf & h & rest & En & _ & Hh & HP).
+      rewrite En in Hn. destruct Hn as [<-|Hn].
+      * repeat split; auto; eauto.
+      * exfalso. apply Hout. apply (Permutation_in _ (Permutation_sym HP)). right. exact Hn.
+    + destruct S as (_ & HP). exfalso. apply Hout.
+      apply (Permutation_in _ (Permutation_sym HP)). right. exact Hn.
+  - destruct S as (S & _). rewrite S in Hout. contradiction.
+Qed.
+
+(* [Keeps k0 b b']: every connected node of [b] whose key is not [k0] is a node of [b'] *)
+Definition Keeps (k0 : option N) (b b' : bucket) : Prop :=
+  forall n, In n (nodes b) -> nconn n = true -> k0 <> Some (nkey n) -> In n (nodes b').
+
+Lemma keeps_refl k0 b : Keeps k0 b b.
+Proof. intros n H _ _. exact H. Qed.
+
+Lemma keeps_trans k0 b b' b'' : Keeps k0 b b' -> Keeps k0 b' b'' -> Keeps k0 b b''.
+Proof. intros H1 H2 n Hn Hc Hk. apply H2; auto. Qed.
+
+Lemma keeps_same_nodes k0 b b' : nodes b' = nodes b -> Keeps k0 b b'.
+Proof. intros E n H _ _. rewrite E. exact H. Qed.
+
+Lemma keeps_apply k0 c b now : Keeps k0 b (fst (b_apply_pending c b now)).
+Proof. intros n Hn Hc _. apply apply_pending_never_evicts_connected; assumption. Qed.
+
+Lemma b_insert_keeps_nodes c b n0 now n : In n (nodes b) -> In n (nodes (fst (b_insert c b n0 now))).
+Proof.
+  intros Hn. unfold b_insert.
+  assert (Hclear : forall (flag : bool) b', nodes (if flag then {| nodes := nodes b'; fcp := fcp b'; pend := None |} else b') = nodes b').
+  { intros [|] b'; reflexivity. }
+  destruct (position _ _); [exact Hn|].
+  destruct (negb _); [exact Hn|].
+  destruct (nconn (set_stamp n0 now)).
+  - destruct (_ && _); [exact Hn|].
+    destruct (is_full b).
+    + destruct (fcp b) as [[|q]|], (pend b); try exact Hn; destruct (nodes b) eqn:En; cbn [fst nodes]; rewrite ?En; exact Hn.
+    + cbn [fst]. rewrite Hclear. cbn [nodes]. apply in_or_app. left. exact Hn.
+  - destruct (is_full b); [exact Hn|].
+    destruct (fcp b); cbn [fst]; rewrite Hclear; cbn [nodes].
+    + apply In_insert_at. right. exact Hn.
+    + apply in_or_app. left. exact Hn.
+Qed.
+
+Lemma keeps_insert k0 c b n0 now : Keeps k0 b (fst (b_insert c b n0 now)).
+Proof. intros n Hn _ _. apply b_insert_keeps_nodes. exact Hn. Qed.
+
+Lemma In_remove_at_other {A} i (x y : A) l :
+  nth_error l i = Some y -> In x l -> x <> y -> In x (remove_at i l).
+Proof.
+  intros Hn Hx Hne. pose proof (remove_at_perm i y l Hn) as HP.
+  apply (Permutation_in _ HP) in Hx. destruct Hx as [E|Hx]; [congruence|exact Hx].
+Qed.
+
+Lemma keeps_status c b k conn dir now : Keeps (Some k) b (fst (b_update_status c b k conn dir now)).
+Proof.
+  intros n Hn _ Hk. unfold b_update_status. destruct (position k (nodes b)) as [pos|] eqn:Hpos.
+  - destruct (position_some _ _ _ Hpos) as (old & Ho & Hko). rewrite Ho. cbv zeta.
+    match goal with |- context [b_insert c ?b1 ?nn now] => set (bb := b1); set (n1 := nn) end.
+    assert (H1 : In n (nodes (fst (b_insert c bb n1 now)))).
+    { apply b_insert_keeps_nodes. unfold bb. cbn [nodes].
+      eapply In_remove_at_other; [exact Ho|exact Hn|]. intros ->. apply Hk. now rewrite Hko. }
+    destruct (b_insert c bb n1 now) as [b2 r]. cbn [fst] in *. destruct r; exact H1.
+  - destruct (pend b) as [p|]; [|exact Hn]. destruct (N.eqb _ _); exact Hn.
+Qed.
+
+Lemma keeps_value c b k v : Keeps (Some k) b (fst (b_update_value c b k v)).
+Proof.
+  intros n Hn _ Hk. unfold b_update_value. destruct (position k (nodes b)) as [pos|] eqn:Hpos.
+  - destruct (position_some _ _ _ Hpos) as (old & Ho & Hko). rewrite Ho.
+    destruct (val_eqb _ _); [exact Hn|]. cbv zeta.
+    assert (Hr : In n (remove_at pos (nodes b))).
+    { eapply In_remove_at_other; [exact Ho|exact Hn|]. intros ->. apply Hk. now rewrite Hko. }
+    destruct (negb _); cbn [fst nodes]; [exact Hr|]. apply In_insert_at. right. exact Hr.
+  - destruct (pend b) as [p|]; [|exact Hn]. destruct (N.eqb _ _); exact Hn.
+Qed.
+
+Lemma keeps_remove c b k now : Keeps (Some k) b (fst (b_remove c b k now)).
+Proof.
+  intros n Hn Hc Hk. unfold b_remove. destruct (position k (nodes b)) as [pos|] eqn:Hpos; [|exact Hn].
+  destruct (position_some _ _ _ Hpos) as (old & Ho & Hko). cbv zeta. cbn [fst].
+  apply apply_pending_never_evicts_connected; [|exact Hc]. cbn [nodes].
+  eapply In_remove_at_other; [exact Ho|exact Hn|]. intros ->. apply Hk. now rewrite Hko.
+Qed.
+
+Lemma keeps_weaken k b b' : Keeps None b b' -> Keeps (Some k) b b'.
+Proof. intros H n Hn Hc _. apply H; auto. discriminate. Qed.
+
+(* the table *)
+Definition TKeeps (k0 : option N) (t t' : table) : Prop :=
+  forall j, Keeps k0 (get_bucket t j) (get_bucket t' j).
+
+Lemma tkeeps_refl k0 t : TKeeps k0 t t.
+Proof. intros j. apply keeps_refl. Qed.
+
+Lemma tkeeps_trans k0 t t' t'' : TKeeps k0 t t' -> TKeeps k0 t' t'' -> TKeeps k0 t t''.
+Proof. intros H1 H2 j. eapply keeps_trans; [apply H1|apply H2]. Qed.
+
+Lemma tkeeps_set k0 t i b' app : Keeps k0 (get_bucket t i) b' -> TKeeps k0 t (set_bucket t i b' app).
+Proof.
+  intros H j. rewrite get_set_bucket.
+  destruct (Nat.eqb_spec i j) as [<-|E]; cbn [andb]; [|apply keeps_refl].
+  destruct (Nat.ltb i (length (buckets t))); [exact H|apply keeps_refl].
+Qed.
+
+Lemma keeps_applied k0 c t i now : Keeps k0 (get_bucket t i) (fst (applied_bucket c t i now)).
+Proof. rewrite applied_bucket_fst. apply keeps_apply. Qed.
+
+Definition addressed (o : op) : option N :=
+  match o with
+  | OInsertOrUpdate k _ _ _ | OUpdateStatus k _ _ | OUpdateNode k _ _ | ORemove k | OEntry k _ => Some k
+  | _ => None
+  end.
+
+Lemma t_update_node_status_keeps c t k conn dir now :
+  TKeeps (Some k) t (fst (t_update_node_status c t k conn dir now)).
+Proof.
+  unfold t_update_node_status. destruct (bucket_index (local t) k) as [i|]; [|apply tkeeps_refl].
+  pose proof (keeps_applied (Some k) c t i now) as HA.
+  destruct (applied_bucket c t i now) as [b app]. cbn [fst] in HA.
+  pose proof (keeps_status c b k conn dir now) as HS.
+  destruct (b_update_status c b k conn dir now) as [b' r]. cbn [fst] in *.
+  apply tkeeps_set. eapply keeps_trans; eassumption.
+Qed.
+
+Lemma t_remove_keeps c t k now : TKeeps (Some k) t (fst (t_remove c t k now)).
+Proof.
+  unfold t_remove. destruct (bucket_index (local t) k) as [i|]; [|apply tkeeps_refl].
+  pose proof (keeps_applied (Some k) c t i now) as HA.
+  destruct (applied_bucket c t i now) as [b app]. cbn [fst] in HA.
+  pose proof (keeps_remove c b k now) as HS.
+  destruct (b_remove c b k now) as [b' r]. cbn [fst] in *.
+  apply tkeeps_set. eapply keeps_trans; eassumption.
+Qed.
+
+Lemma t_update_node_keeps c t k v state now :
+  TKeeps (Some k) t (fst (t_update_node c t k v state now)).
+Proof.
+  unfold t_update_node. destruct (bucket_index (local t) k) as [i|]; [|apply tkeeps_refl].
+  pose proof (keeps_applied (Some k) c t i now) as HA.
+  destruct (applied_bucket c t i now) as [b app]. cbn [fst] in HA.
+  destruct (negb (passes_table_filter c t k v)).
+  - cbn [fst]. apply tkeeps_set. eapply keeps_trans; [exact HA|apply keeps_remove].
+  - pose proof (keeps_value c b k v) as HV.
+    destruct (b_update_value c b k v) as [b1 ur]. cbn [fst] in HV.
+    assert (H1 : Keeps (Some k) (get_bucket t i) b1) by (eapply keeps_trans; eassumption).
+    assert (H2 : forall b2 sr, (b2, sr) = match state with
+                                         | Some s => b_update_status c b1 k s None now
+                                         | None => (b1, UNotModified)
+                                         end -> Keeps (Some k) (get_bucket t i) b2).
+    { intros b2 sr E. destruct state as [s|].
+      - pose proof (keeps_status c b1 k s None now) as HS. rewrite <- E in HS. cbn [fst] in HS.
+        eapply keeps_trans; eassumption.
+      - inversion E; subst. exact H1. }
+    destruct ur; try (cbn [fst]; apply tkeeps_set; exact H1);
+      (destruct (match state with Some s => b_update_status c b1 k s None now | None => (b1, UNotModified) end)
+         as [b2 sr] eqn:E; cbn [fst]; apply tkeeps_set; apply (H2 b2 sr); reflexivity).
+Qed.
+
+Lemma t_insert_or_update_keeps c t k v conn inc now :
+  TKeeps (Some k) t (fst (t_insert_or_update c t k v conn inc now)).
+Proof.
+  unfold t_insert_or_update. destruct (bucket_index (local t) k) as [i|]; [|apply tkeeps_refl].
+  pose proof (keeps_applied (Some k) c t i now) as HA.
+  destruct (applied_bucket c t i now) as [b app]. cbn [fst] in HA.
+  destruct (negb (passes_table_filter c t k v)).
+  - cbn [fst]. apply tkeeps_set. eapply keeps_trans; [exact HA|apply keeps_remove].
+  - destruct (position k (nodes b)).
+    + pose proof (keeps_status c b k conn (Some inc) now) as HS.
+      destruct (b_update_status c b k conn (Some inc) now) as [b1 sr]. cbn [fst] in HS.
+      assert (H1 : Keeps (Some k) (get_bucket t i) b1) by (eapply keeps_trans; eassumption).
+      pose proof (keeps_value c b1 k v) as HV.
+      destruct (b_update_value c b1 k v) as [b2 vr]. cbn [fst] in HV.
+      assert (H2 : Keeps (Some k) (get_bucket t i) b2) by (eapply keeps_trans; eassumption).
+      destruct sr; cbn [fst]; apply tkeeps_set; assumption.
+    + match goal with |- context [b_insert c b ?n0 now] =>
+        pose proof (keeps_insert (Some k) c b n0 now) as HI; destruct (b_insert c b n0 now) as [b' r] end.
+      cbn [fst] in *. apply tkeeps_set. eapply keeps_trans; eassumption.
+Qed.
+
+Lemma t_entry_keeps c t k a now : TKeeps (Some k) t (fst (t_entry c t k a now)).
+Proof.
+  unfold t_entry. destruct (bucket_index (local t) k) as [i|]; [|apply tkeeps_refl].
+  pose proof (keeps_applied (Some k) c t i now) as HA.
+  destruct (applied_bucket c t i now) as [b app]. cbn [fst] in HA.
+  destruct (classify b k), a; cbn [fst]; try (apply tkeeps_set; exact HA);
+    try (apply tkeeps_set; eapply keeps_trans; [exact HA|apply keeps_remove]).
+  - pose proof (keeps_status c b k conn0 dir now) as HS.
+    destruct (b_update_status c b k conn0 dir now) as [b' r]. cbn [fst] in *.
+    apply tkeeps_set. eapply keeps_trans; eassumption.
+  - apply tkeeps_set. eapply keeps_trans; [exact HA|].
+    apply keeps_same_nodes. apply b_update_pending_nodes.
+  - match goal with |- context [b_insert c b ?n0 now] =>
+      pose proof (keeps_insert (Some k) c b n0 now) as HI; destruct (b_insert c b n0 now) as [b' r] end.
+    cbn [fst] in *. apply tkeeps_set. eapply keeps_trans; eassumption.
+Qed.
+
+Lemma t_iter_keeps c t now : TKeeps None t (fst (t_iter c t now)).
+Proof.
+  intros j. destruct (t_iter_buckets c now t) as [Eb _].
+  assert (E : get_bucket (fst (t_iter c t now)) j = fst (b_apply_pending c (get_bucket t j) now)).
+  { unfold get_bucket. rewrite Eb.
+    exact (map_nth (fun b => fst (b_apply_pending c b now)) (buckets t) empty_bucket j). }
+  rewrite E. apply keeps_apply.
+Qed.
+
+Lemma nbd_apply_keeps c now ds : forall t cnt maxn, TKeeps None t (nbd_apply c t ds cnt maxn now).
+Proof.
+  induction ds as [|d ds IH]; intros t cnt maxn; [apply tkeeps_refl|]. cbn [nbd_apply].
+  pose proof (keeps_apply None c (get_bucket t (N.to_nat (d - 1))) now) as HA.
+  destruct (b_apply_pending c (get_bucket t (N.to_nat (d - 1))) now) as [b a]. cbn [fst] in HA.
+  destruct a as [x|].
+  - destruct (Nat.leb maxn (cnt + length (nodes b))).
+    + apply tkeeps_set. exact HA.
+    + eapply tkeeps_trans; [apply tkeeps_set; exact HA|apply IH].
+  - eapply tkeeps_trans; [apply tkeeps_set; exact HA|apply IH].
+Qed.
+
+Lemma closest_walk_keeps c now target order : forall t,
+  TKeeps None t (fst (closest_walk c t target order now)).
+Proof.
+  induction order as [|i order IH]; intros t; [apply tkeeps_refl|]. cbn [closest_walk].
+  pose proof (keeps_applied None c t i now) as HA.
+  destruct (applied_bucket c t i now) as [b app]. cbn [fst] in HA.
+  specialize (IH (set_bucket t i b app)).
+  destruct (closest_walk c (set_bucket t i b app) target order now) as [t2 out]. cbn [fst] in *.
+  eapply tkeeps_trans; [apply tkeeps_set; exact HA|exact IH].
+Qed.
+
+Lemma t_force_ready_keeps t i now : TKeeps None t (t_force_ready t i now).
+Proof.
+  unfold t_force_ready. destruct (pend (get_bucket t i)); [|apply tkeeps_refl].
+  apply tkeeps_set. apply keeps_same_nodes. reflexivity.
+Qed.
+
+Lemma t_take_applied_keeps t : TKeeps None t (fst (t_take_applied t)).
+Proof. unfold t_take_applied. destruct (applied t); [apply tkeeps_refl|]. intros j. apply keeps_refl. Qed.
+
+(* every operation of the table: a connected node that the operation is not addressed to is still
+   a node of its bucket afterwards (same record, same status) *)
+Theorem step_never_drops_connected fixed c t o now j n :
+  In n (nodes (get_bucket t j)) -> nconn n = true -> addressed o <> Some (nkey n) ->
+  In n (nodes (get_bucket (fst (step fixed c t o now)) j)).
+Proof.
+  intros Hn Hc Hk.
+  assert (H : TKeeps (addressed o) t (fst (step fixed c t o now))).
+  { destruct o; cbn [step addressed].
+    - pose proof (t_insert_or_update_keeps c t k v conn inc now). destruct (t_insert_or_update c t k v conn inc now); assumption.
+    - pose proof (t_update_node_status_keeps c t k conn dir now). destruct (t_update_node_status c t k conn dir now); assumption.
+    - pose proof (t_update_node_keeps c t k v state now). destruct (t_update_node c t k v state now); assumption.
+    - pose proof (t_remove_keeps c t k now). destruct (t_remove c t k now); assumption.
+    - pose proof (t_entry_keeps c t k a now). destruct (t_entry c t k a now); assumption.
+    - pose proof (t_iter_keeps c t now). destruct (t_iter c t now); assumption.
+    - pose proof (t_take_applied_keeps t). destruct (t_take_applied t); assumption.
+    - unfold t_nodes_by_distances. cbn [fst]. apply nbd_apply_keeps.
+    - unfold t_closest. pose proof (closest_walk_keeps c now target (bucket_order fixed (N.lxor (local t) target)) t).
+      destruct (closest_walk c t target _ now); assumption.
+    - apply t_force_ready_keeps. }
+  apply (H j n Hn Hc Hk).
+Qed.
+
+(* ------------------------------------------------------------------------------------------ *)
+(* The (key, record) pairs of the table - nodes and pending slots - come from the operations: after
+   any operation every pair was in the table before or is the pair the operation carries for the
+   id it is addressed to.  Hence, if every operation offers a record only for the id it belongs to
+   (the node id of a record is the hash of its key), every stored record sits under its own id:
+   no operation writes the record of A into the entry of X. *)
+From Discv5V Require Import Proofs.KBMembers.
+
+Definition offered (o : op) : list (N * val) :=
+  match o with
+  | OInsertOrUpdate k v _ _ => [(k, v)]
+  | OUpdateNode k v _ => [(k, v)]
+  | OEntry k (AInsert v _ _) => [(k, v)]
+  | _ => []
+  end.
+
+Lemma tmem_same_buckets t t' : buckets t' = buckets t -> tmem t' = tmem t.
+Proof. unfold tmem. now intros ->. Qed.
+
+Lemma t_iter_mem c t now x : In x (tmem (fst (t_iter c t now))) -> In x (tmem t).
+Proof.
+  destruct (t_iter_buckets c now t) as [Eb _]. unfold tmem. rewrite Eb.
+  rewrite !in_flat_map. intros (b' & Hb' & Hx). apply in_map_iff in Hb'. destruct Hb' as (b & <- & Hb).
+  exists b. split; [exact Hb|]. eapply b_apply_pending_mem. exact Hx.
+Qed.
+
+Lemma nbd_apply_mem c now ds x : forall t cnt maxn,
+  In x (tmem (nbd_apply c t ds cnt maxn now)) -> In x (tmem t).
+Proof.
+  induction ds as [|d ds IH]; intros t cnt maxn H; [exact H|]. cbn [nbd_apply] in H.
+  pose proof (b_apply_pending_mem c (get_bucket t (N.to_nat (d - 1))) now x) as HA.
+  destruct (b_apply_pending c (get_bucket t (N.to_nat (d - 1))) now) as [b a]. cbn [fst] in HA.
+  assert (HS : forall app, In x (tmem (set_bucket t (N.to_nat (d - 1)) b app)) -> In x (tmem t)).
+  { intros app H'. apply set_bucket_mem in H'. destruct H' as [H'|H']; [|exact H'].
+    eapply get_bucket_mem. apply HA. exact H'. }
+  destruct a as [y|].
+  - destruct (Nat.leb maxn (cnt + length (nodes b))); [eapply HS; exact H|].
+    eapply HS. eapply IH. exact H.
+  - eapply HS. eapply IH. exact H.
+Qed.
+
+Lemma closest_walk_mem c now target order x : forall t,
+  In x (tmem (fst (closest_walk c t target order now))) -> In x (tmem t).
+Proof.
+  induction order as [|i order IH]; intros t H; [exact H|]. cbn [closest_walk] in H.
+  pose proof (applied_bucket_mem c t i now x) as HA.
+  destruct (applied_bucket c t i now) as [b app]. cbn [fst] in HA.
+  specialize (IH (set_bucket t i b app)).
+  destruct (closest_walk c (set_bucket t i b app) target order now) as [t2 out]. cbn [fst] in *.
+  apply IH in H. apply set_bucket_mem in H. destruct H as [H|H]; [apply HA; exact H|exact H].
+Qed.
+
+Lemma t_force_ready_mem t i now x : In x (tmem (t_force_ready t i now)) -> In x (tmem t).
+Proof.
+  unfold t_force_ready. destruct (pend (get_bucket t i)) as [p|] eqn:Ep; [|auto].
+  intros H. apply set_bucket_mem in H. destruct H as [H|H]; [|exact H].
+  apply (get_bucket_mem t i). unfold bmem in *. cbn [nodes pend pn] in H. rewrite Ep. exact H.
+Qed.
+
+Theorem step_mem fixed c t o now x :
+  In x (tmem (fst (step fixed c t o now))) -> In x (tmem t) \/ In x (offered o).
+Proof.
+  destruct o; cbn [step offered].
+  - pose proof (t_insert_or_update_mem c t k v conn inc now x) as H.
+    destruct (t_insert_or_update c t k v conn inc now). cbn [fst] in *.
+    intros Hx. destruct (H Hx) as [H'|(-> & _)]; [left; exact H'|right; left; reflexivity].
+  - pose proof (t_update_node_status_mem c t k conn dir now x) as H.
+    destruct (t_update_node_status c t k conn dir now). cbn [fst] in *. auto.
+  - pose proof (t_update_node_mem c t k v state now x) as H.
+    destruct (t_update_node c t k v state now). cbn [fst] in *.
+    intros Hx. destruct (H Hx) as [H'|(-> & _)]; [left; exact H'|right; left; reflexivity].
+  - pose proof (t_remove_mem c t k now x) as H. destruct (t_remove c t k now). cbn [fst] in *. auto.
+  - pose proof (t_entry_mem c t k a now x) as H. destruct (t_entry c t k a now). cbn [fst] in *.
+    intros Hx. destruct (H Hx) as [H'|(v & cn & ic & -> & -> & _)]; [left; exact H'|right; left; reflexivity].
+  - pose proof (t_iter_mem c t now x) as H. destruct (t_iter c t now). cbn [fst] in *. auto.
+  - unfold t_take_applied. destruct (applied t); cbn [fst]; auto.
+  - unfold t_nodes_by_distances. cbn [fst]. intros H. left. eapply nbd_apply_mem. exact H.
+  - unfold t_closest.
+    pose proof (closest_walk_mem c now target (bucket_order fixed (N.lxor (local t) target)) x t) as H.
+    destruct (closest_walk c t target _ now). cbn [fst] in *. auto.
+  - intros H. left. eapply t_force_ready_mem. exact H.
+Qed.
+
+(* any predicate on (id, record) pairs that holds for the table and for what the operation offers
+   holds for the table afterwards *)
+Theorem values_keyed_inv (P : N * val -> Prop) fixed c t o now :
+  (forall x, In x (tmem t) -> P x) -> (forall x, In x (offered o) -> P x) ->
+  forall x, In x (tmem (fst (step fixed c t o now))) -> P x.
+Proof.
+  intros Ht Ho x Hx. destruct (step_mem fixed c t o now x Hx) as [H|H]; auto.
+Qed.
+
+Lemma tmem_new loc : tmem (new_table loc) = [].
+Proof.
+  unfold tmem, new_table. cbn [buckets]. induction NB as [|n IH]; [reflexivity|]. cbn [repeat flat_map]. exact IH.
+Qed.
+
+Theorem values_keyed_run (P : N * val -> Prop) fixed c ops : forall t,
+  (forall x, In x (tmem t) -> P x) ->
+  Forall (fun o => forall x, In x (offered (fst o)) -> P x) ops ->
+  forall x, In x (tmem (fst (run fixed c t ops))) -> P x.
+Proof.
+  induction ops as [|[o now] ops IH]; intros t Ht Hops; [exact Ht|]. cbn [run].
+  inversion Hops as [|? ? Ho Hrest]; subst.
+  pose proof (values_keyed_inv P fixed c t o now Ht Ho) as H1.
+  destruct (step fixed c t o now) as [t1 r]. cbn [fst] in H1.
+  specialize (IH t1 H1 Hrest). destruct (run fixed c t1 ops) as [t2 rs]. exact IH.
+Qed.
+
+(* with [owner]: the id a record belongs to *)
+Theorem values_keyed_reachable (owner : N -> N) fixed c loc ops :
+  Forall (fun o => forall k v, In (k, v) (offered (fst o)) -> owner (vid v) = k) ops ->
+  forall k v, In (k, v) (tmem (fst (run fixed c (new_table loc) ops))) -> owner (vid v) = k.
+Proof.
+  intros Hops k v H.
+  apply (values_keyed_run (fun x => owner (vid (snd x)) = fst x) fixed c ops (new_table loc)) in H; [exact H| |].
+  - intros x Hx. rewrite tmem_new in Hx. destruct Hx.
+  - eapply Forall_impl; [|exact Hops]. intros o Ho [k' v'] Hx. apply Ho. exact Hx.
+Qed.
